@@ -447,3 +447,89 @@ macro_rules! with_lookups {
         }
     }};
 }
+
+/// The script producer of C10: a random monotone alignment of the two ranges
+/// (a walk through the edit graph), whose delete steps and insert steps are
+/// two logical streams that the PRNG merges in an arbitrary order inside each
+/// run of changes and coalesces into calls of drawn lengths.  Carried
+/// indices are exact (the cursor of the other side).  No `Finish`.
+pub fn gen_script(rng: &mut Rng, seq: &SeqCase) -> Vec<crate::simenv::Call> {
+    use crate::simenv::Call;
+    let (mut i, mut j) = (seq.old_range.0, seq.new_range.0);
+    let (n, m) = (seq.old_range.1, seq.new_range.1);
+    // probability (in percent) of taking an available diagonal
+    let p_diag = *rng.pick(&[30u64, 60, 85, 100]);
+    // probability of continuing the current call instead of starting a new one
+    let p_join = *rng.pick(&[0u64, 50, 80, 100]);
+    // bias between delete and insert steps
+    let p_del = *rng.pick(&[20u64, 50, 80]);
+    #[derive(PartialEq, Clone, Copy)]
+    enum Step {
+        E,
+        D,
+        I,
+    }
+    let mut steps = Vec::new();
+    while i < n || j < m {
+        let can_diag = i < n && j < m && seq.old[i] == seq.new[j];
+        let s = if can_diag && rng.below(100) < p_diag {
+            Step::E
+        } else if i < n && (j >= m || rng.below(100) < p_del) {
+            Step::D
+        } else if j < m {
+            Step::I
+        } else {
+            Step::D
+        };
+        match s {
+            Step::E => {
+                i += 1;
+                j += 1;
+            }
+            Step::D => i += 1,
+            Step::I => j += 1,
+        }
+        steps.push(s);
+    }
+    let mut calls: Vec<Call> = Vec::new();
+    let (mut i, mut j) = (seq.old_range.0, seq.new_range.0);
+    let mut prev: Option<Step> = None;
+    for s in steps {
+        let join = prev == Some(s) && rng.below(100) < p_join;
+        match s {
+            Step::E => {
+                if join {
+                    if let Some(Call::Equal(_, _, l)) = calls.last_mut() {
+                        *l += 1;
+                    }
+                } else {
+                    calls.push(Call::Equal(i, j, 1));
+                }
+                i += 1;
+                j += 1;
+            }
+            Step::D => {
+                if join {
+                    if let Some(Call::Delete(_, l, _)) = calls.last_mut() {
+                        *l += 1;
+                    }
+                } else {
+                    calls.push(Call::Delete(i, 1, j));
+                }
+                i += 1;
+            }
+            Step::I => {
+                if join {
+                    if let Some(Call::Insert(_, _, l)) = calls.last_mut() {
+                        *l += 1;
+                    }
+                } else {
+                    calls.push(Call::Insert(i, j, 1));
+                }
+                j += 1;
+            }
+        }
+        prev = Some(s);
+    }
+    calls
+}
